@@ -150,6 +150,25 @@ CLAIMED = {
    note='Trusted: Coq kernel+VM; the layout prober (gcc, cshim); harness/girgen.py as the statement of what a GIR means; '
         'one namespace without includes; record sizes/offsets compared only decoder vs API (C08 decides them).',
    ref='DESIGN.md §4 C06'),
+ 'C02': dict(
+   technique='Coq proof over a model of the scanner\'s default rules with the C-spelling table regenerated from ast.py + in-Coq correspondence through the real pipeline',
+   text='Theorems (Coq, axiom-free): every documented C spelling maps to the documented fundamental on the table '
+        'regenerated from giscanner/ast.py (C02_type_table, 42 spellings; returned char**/GStrv become arrays of utf8); the '
+        'emitted c:type is the spelling of the declarator tree for every tree (C02_ctype_preserved); in-parameters never '
+        'transfer, out/inout transfer fully unless caller-allocated, returned basic/const/gpointer/void values are not '
+        'transferred, non-const strings are, untyped pointers are nullable (C02_transfer_defaults, C02_return_defaults, '
+        'C02_untyped_pointer_nullable); for EVERY parameter list a destroy-notify attaches to the callback in force, a '
+        'user-data pointer becomes its closure and the callback precedes both (C02_callback_triple, '
+        'C02_callback_precedes, induction over the list); a trailing GError** is removed, the callable throws and no other '
+        'parameter is touched (C02_throws). Tie: un-annotated functions over 16 basic spellings, 50 typedef names, pointers '
+        'to 23 bases and all kinds of callback/user-data/destroy/GError arrangements go through the real Transformer, '
+        'MainTransformer, IntrospectablePass and GIRWriter; type element, name, c:type, element type, transfer, nullable, '
+        'scope, closure and destroy indices and throws of every parameter and return value are compared with the model '
+        'inside Coq.',
+   note='Trusted: Coq kernel+VM; gen_c02.py (dumps ast.type_names of the imported module); stub lexer (SourceSymbol trees '
+        'are inputs); declared identifiers and their classes are model inputs; stub include GIRs for GLib/GObject/Gio; '
+        'fields and constants use the same mapping but are not compared here; constructor return defaults are C04\'s.',
+   ref='DESIGN.md §4 C02'),
 }
 
 PLANNED = {}
